@@ -40,6 +40,7 @@ from collada.common import DaeError, DaeIncompleteError, DaeBrokenRefError, \
     DaeMalformedError, DaeSaveValidationError
 from collada.util import IndexedList
 from collada.util import _syncChildren
+from collada.xmlutil import COLLADA_NS
 from collada.xmlutil import createElementTree
 from collada.xmlutil import etree as ElementTree
 from collada.xmlutil import writeXML
@@ -489,8 +490,31 @@ class Collada(object):
         except DaeError as ex:
             self.handleError(ex)
 
+    def _retagNamespace(self, old, new):
+        """Move every element of the document from namespace `old` to namespace `new`."""
+        prefix = '{%s}' % old
+        for node in self.xmlnode.iter():
+            if isinstance(node.tag, str) and node.tag.startswith(prefix):
+                node.tag = '{%s}%s' % (new, node.tag[len(prefix):])
+
     def save(self):
         """Saves the collada document back to :attr:`xmlnode`"""
+        namespace = self.xmlnode.getroot().tag.split('}')[0].lstrip('{')
+        if namespace == COLLADA_NS:
+            return self._save()
+        # the save() methods of the objects look their elements up, and create
+        # new ones, in the default namespace: do the work there and move the
+        # document back to its own namespace afterwards
+        doctag = self.tag
+        self._retagNamespace(namespace, COLLADA_NS)
+        self.tag = tag
+        try:
+            self._save()
+        finally:
+            self.tag = doctag
+            self._retagNamespace(COLLADA_NS, namespace)
+
+    def _save(self):
         libraries = [(self.geometries, 'library_geometries'),
                      (self.controllers, 'library_controllers'),
                      (self.lights, 'library_lights'),
